@@ -5,7 +5,8 @@
 // and_then / or_else are C++23 in std: their oracle is the one-line definition `has ? f(*o) : nullopt` / `has ? o : f()`
 // applied to the std::optional model, plus "f is called exactly once iff (dis)engaged".
 // Masked as unspecified: the *value* of a moved-from optional<NonTriv> (the engaged flag is specified: unchanged; moving
-// from an int cannot change it, so optional<int> is compared in full).
+// from an int cannot change it, so optional<int> is compared in full).  After value_or / and_then / or_else on an lvalue or
+// const lvalue the source must be unchanged (std copies); an rvalue call that copies where std moves is not reported.
 //
 // Catalogue (probed with small test compiles against this tree, g++ 12 -std=c++20):
 //   optional<T> exist + checked: optional(), optional(nullopt), optional(U&&) [T lvalue / rvalue / convertible U],
@@ -175,6 +176,12 @@ struct Val {
                         clr();
                     }
                 };
+                // after a monadic / value_or call on an lvalue or const lvalue the source holds what it held before
+                // ([optional.monadic], [optional.observe]: the & and const& overloads copy)
+                auto source_unchanged = [&](char const* what) -> std::string {
+                    auto e = compare("source", x, mx);
+                    return e.empty() ? e : std::string(what) + " modified the object it was called on: " + e;
+                };
                 switch (code) {
                 case C_DEFAULT: sx.make(), clr(); break;
                 case C_NULLOPT: sx.make(etl::nullopt), clr(); break;
@@ -331,6 +338,7 @@ struct Val {
                     }
                     if (!(mx.o.has_value() && mx.masked) && got != want) { err = "value_or(" + std::to_string(d) + ") is " + std::to_string(got) + ", std::optional gives " + std::to_string(want); }
                     if (code == Q_VALUE_OR_RV && mx.o.has_value() && tracked) { mx.masked = true; } // value was moved out
+                    if (code == Q_VALUE_OR && err.empty()) { err = source_unchanged("value_or() const&"); }
                     break;
                 }
                 case Q_AND_THEN: {
@@ -361,6 +369,7 @@ struct Val {
                     } else if (!mx.o.has_value() && r.has_value()) {
                         err = "and_then on a disengaged optional returned an engaged optional";
                     }
+                    if (err.empty() && op.b % 4 < 2) { err = source_unchanged(op.b % 4 == 0 ? "and_then() &" : "and_then() const&"); }
                     break;
                 }
                 case Q_OR_ELSE:
@@ -383,6 +392,7 @@ struct Val {
                         err = "or_else result holds " + std::to_string(val(*r)) + ", expected " + std::to_string(*want);
                     }
                     if (!mx.o.has_value()) { chain_called = true; }
+                    if (code == Q_OR_ELSE && err.empty()) { err = source_unchanged("or_else() const&"); }
                     if (code == Q_OR_ELSE_RV && mx.o.has_value() && tracked) { mx.masked = true; } // *this was moved into the result
                     break;
                 }
